@@ -125,6 +125,7 @@ def sigmaOf (ls : List (Var × String)) (j : Json) : Var → Int := fun v =>
 
 def handleE (j : Json) : Except String Json := do
   let I ← parseInst (← fld j "inst")
+  if let some cls := I.crash then return errJ cls
   let ls := labels I
   let lab := labelOf I ls
   let m := gen I
